@@ -419,6 +419,19 @@ def one_case(run, rng, backend=None, prog=None):
         objs[i] = so
         run.count(f"struct_compared:{backend}")
         d = struct_compare(run, recorded[i][0], so, flat)
+        if d is not None and any(not isinstance(c["name"], str)
+                                 for c in flat["columns"]):
+            # regex-designated check vs a non-string column name: both
+            # readings (match on str(name) / never match) are accepted
+            alt = P.resolve(prog, i, nonstr_regex="skip")
+            alt["name"] = flat["name"]
+            try:
+                so_alt = P.build_schema(alt, backend)
+                if struct_compare(run, recorded[i][0], so_alt, alt) is None:
+                    run.count("undecided:regex-check-on-non-str-column-name")
+                    flats[i], objs[i], d = alt, so_alt, None
+            except Exception:
+                pass
         if d is None:
             run.count("struct_equal")
             continue
@@ -441,7 +454,11 @@ def one_case(run, rng, backend=None, prog=None):
             for j in order:
                 if j not in objs:
                     continue
-                sj = h2[j].to_schema()
+                try:
+                    sj = h2[j].to_schema()
+                except Exception:
+                    run.count("twin_to_schema_raises(reported-for-h1)")
+                    continue
                 run.count("twin_order_compared")
                 d = struct_compare(run, sj, objs[j], flats[j])
                 if d is not None:
